@@ -123,6 +123,9 @@ where
             }
         }
 
+        #[cfg(p2panda_p2panda_verif)]
+        p2panda_core::verif::point("task.ready.after_check").await;
+
         // If not, we wait until we got notified that an result exists.
         self.ready_signal.notified().await;
 
